@@ -200,7 +200,7 @@ Proof.
       destruct (int_bounds_some t It) as [lo [hi Hb]].
       pose proof (value_range_int t lo hi Hok Hb) as R.
       apply (range_check_ok t q _ _ v' R) in H. destruct H as [-> [A B]].
-      apply (CS_int t q z lo hi Hb Hz). rewrite Hz in A, B. apply inject_Z_le in A. apply inject_Z_le in B. lia.
+      apply (CS_int t q z lo hi Hb Hz). rewrite Hz in A, B. split; [apply (proj1 (inject_Z_le lo z) A)|apply (proj1 (inject_Z_le z hi) B)].
     + destruct t; try discriminate; cbn in H; try discriminate.
       destruct (float_max_ok w trunc Hok) as [m Hm].
       pose proof (value_range_float w trunc m Hm) as R.
@@ -211,7 +211,7 @@ Proof.
   - (* string *)
     destruct (is_integer_type t) eqn:It.
     + assert (const_check t (VStr s) =
-              if negb (encodable s) then CCrash else if negb (utf8_len s =? 1)%Z then CRej
+              if negb (encodable s) then CRej else if negb (utf8_len s =? 1)%Z then CRej
               else if negb (is_uint8 t) then CRej else range_check t (inject_Z (hd 0%Z s))) as E
         by (destruct t; try discriminate; reflexivity).
       rewrite E in H. clear E.
@@ -238,7 +238,7 @@ Proof.
     rewrite Hz. split; apply inject_Z_le; lia.
   - pose proof (is_uint8_integer _ U) as It.
     assert (const_check t (VStr [c]) =
-            if negb (encodable [c]) then CCrash else if negb (utf8_len [c] =? 1)%Z then CRej
+            if negb (encodable [c]) then CRej else if negb (utf8_len [c] =? 1)%Z then CRej
             else if negb (is_uint8 t) then CRej else range_check t (inject_Z (hd 0%Z [c]))) as E
       by (destruct t; try discriminate; reflexivity).
     rewrite E, (ascii_encodable c Hc), U. cbn [negb].
@@ -269,14 +269,29 @@ Qed.
 Theorem compliant : forall t v v', ctype_ok t = true -> const_check t v = COk v' -> Compliant t v'.
 Proof. intros t v v' Hok H. eapply spec_compliant. apply const_check_sound; eassumption. Qed.
 
+Lemma const_check_rat : forall t q, const_check t (VRat q) =
+  match t with
+  | TBool | TNonPrim => CRej
+  | TFloat _ _ => range_check t q
+  | _ => if is_int q then range_check t q else CRej
+  end.
+Proof. intros. destruct t; reflexivity. Qed.
+
+Lemma const_check_str : forall t s, const_check t (VStr s) =
+  match t with
+  | TBool | TNonPrim | TFloat _ _ => CRej
+  | _ => if negb (encodable s) then CRej else if negb (utf8_len s =? 1)%Z then CRej
+         else if negb (is_uint8 t) then CRej else range_check t (inject_Z (hd 0%Z s))
+  end.
+Proof. intros. destruct t; reflexivity. Qed.
+
 (* never rounded, never converted: a rational initialiser is stored as it is *)
 Theorem exact : forall t q v', const_check t (VRat q) = COk v' -> v' = VRat q.
 Proof.
-  intros t q v' H.
-  assert (const_check t (VRat q) = CRej \/ const_check t (VRat q) = range_check t q) as [E|E].
-  { destruct t; cbn; auto; destruct (is_int q); auto. }
-  - congruence.
-  - rewrite E in H. destruct (range_check_cases t q) as [R|R]; congruence.
+  intros t q v' H. rewrite const_check_rat in H.
+  destruct (range_check_cases t q) as [R|R].
+  - destruct t; try discriminate; try destruct (is_int q); try discriminate; rewrite R in H; inversion H; reflexivity.
+  - destruct t; try discriminate; try destruct (is_int q); try discriminate; rewrite R in H; discriminate.
 Qed.
 
 Theorem exact_bool : forall t b v', const_check t (VBool b) = COk v' -> v' = VBool b /\ t = TBool.
@@ -288,11 +303,11 @@ Proof.
   intros t v v' H. destruct v as [q|b|s|els].
   - left. pose proof (exact _ _ _ H). split; [|eauto]. intros ->. discriminate.
   - right. apply exact_bool in H. destruct H; eauto.
-  - left. split; [intros ->; discriminate|].
-    destruct t; cbn in H; try discriminate.
+  - left. split; [intros ->; discriminate|]. rewrite const_check_str in H.
+    destruct t; try discriminate.
     all: destruct (encodable s); cbn [negb] in H; try discriminate.
     all: destruct (utf8_len s =? 1)%Z; cbn [negb] in H; try discriminate.
-    all: try (destruct (w =? 8)%Z; cbn [negb] in H; try discriminate).
+    all: match type of H with context [is_uint8 ?t] => destruct (is_uint8 t); cbn [negb] in H; try discriminate end.
     all: match type of H with range_check ?t ?q = _ => destruct (range_check_cases t q) as [R|R]; rewrite R in H; inversion H; eauto end.
   - cbn in H. discriminate.
 Qed.
@@ -301,25 +316,9 @@ Qed.
 Theorem nonprim_rejected : forall v, const_check TNonPrim v = CRej.
 Proof. intros v. destruct v; reflexivity. Qed.
 
-(* the one way Constant.__init__ leaves with a foreign exception on the current tree *)
-Theorem crash_iff : forall t v, const_check t v = CCrash <-> is_integer_type t = true /\ exists s, v = VStr s /\ lone_surrogate s.
+(* a string containing a lone surrogate is never accepted (str.encode fails, handled as "not one character") *)
+Theorem surrogate_rejected : forall t s, lone_surrogate s -> const_check t (VStr s) = CRej.
 Proof.
-  intros t v. split.
-  - intros H. destruct v as [q|b|s|els].
-    + destruct t; cbn in H; try discriminate.
-      all: destruct (is_int q); try discriminate.
-      all: match type of H with range_check ?t ?q = _ => destruct (range_check_cases t q) as [R|R]; rewrite R in H; discriminate end.
-    + destruct t; cbn in H; discriminate.
-    + destruct (is_integer_type t) eqn:It.
-      * split; [reflexivity|]. exists s. split; [reflexivity|]. apply encodable_false.
-        destruct (encodable s) eqn:En; [|reflexivity]. exfalso.
-        destruct t; try discriminate; cbn in H; rewrite En in H; cbn [negb] in H.
-        all: destruct (utf8_len s =? 1)%Z; cbn [negb] in H; try discriminate.
-        all: try (destruct (w =? 8)%Z; cbn [negb] in H; try discriminate).
-        all: match type of H with range_check ?t ?q = _ => destruct (range_check_cases t q) as [R|R]; rewrite R in H; discriminate end.
-      * destruct t; try discriminate; cbn in H; try discriminate.
-        match type of H with range_check ?t ?q = _ => destruct (range_check_cases t q) as [R|R]; rewrite R in H; discriminate end.
-    + cbn in H. discriminate.
-  - intros [It [s [-> Hs]]]. apply encodable_false in Hs.
-    destruct t; try discriminate; cbn; rewrite Hs; reflexivity.
+  intros t s Hs. apply encodable_false in Hs.
+  destruct t; cbn; try rewrite Hs; reflexivity.
 Qed.
